@@ -391,6 +391,53 @@ pub fn compile_paths(p: &Program) -> Vec<CPath> {
                     _ => {}
                 }
             }
+            // sorts of variables may be determined by a later then-statement only
+            // (`if t = x; then mul(t, u) = v;`)
+            fn infer(p: &Program, t: &CTerm, expect: Option<usize>, sorts: &mut Vec<Option<usize>>) {
+                match t {
+                    CTerm::Var(v) => {
+                        if sorts[*v].is_none() {
+                            sorts[*v] = expect;
+                        }
+                    }
+                    CTerm::App(r, args) => {
+                        for (i, a) in args.iter().enumerate() {
+                            infer(p, a, p.rels[*r].args.get(i).copied(), sorts);
+                        }
+                    }
+                }
+            }
+            fn sort_of(p: &Program, t: &CTerm, sorts: &[Option<usize>]) -> Option<usize> {
+                match t {
+                    CTerm::Var(v) => sorts[*v],
+                    CTerm::App(r, _) => p.rels[*r].result,
+                }
+            }
+            for _ in 0..2 {
+                for st in &b.stmts {
+                    if let CStmt::Then(c, _) = st {
+                        match c {
+                            CThen::Pred(r, args) => {
+                                for (i, a) in args.iter().enumerate() {
+                                    infer(p, a, p.rels[*r].args.get(i).copied(), &mut b.var_sorts);
+                                }
+                            }
+                            CThen::Eq(l, r) => {
+                                let s = sort_of(p, l, &b.var_sorts).or(sort_of(p, r, &b.var_sorts));
+                                infer(p, l, s, &mut b.var_sorts);
+                                infer(p, r, s, &mut b.var_sorts);
+                            }
+                            CThen::Defined(t) => infer(p, t, None, &mut b.var_sorts),
+                            CThen::DefinedAs(v, t) => {
+                                infer(p, t, None, &mut b.var_sorts);
+                                if b.var_sorts[*v].is_none() {
+                                    b.var_sorts[*v] = sort_of(p, t, &b.var_sorts);
+                                }
+                            }
+                        }
+                    }
+                }
+            }
             // a second pass to propagate sorts through Equal constraints
             for _ in 0..3 {
                 let mut eqs: Vec<(usize, usize)> = Vec::new();
@@ -534,11 +581,17 @@ fn extend_one(st: &Structure, path: &CPath, asg: &Asg, cs: &[FlatC], done: &mut 
     Ok(())
 }
 
+/// More assignments than this for one rule prefix: the model is too big for the naive reference.
+pub const MAX_ASSIGNMENTS: usize = 40_000;
+
 pub fn extend(st: &Structure, path: &CPath, asgs: Vec<Asg>, cs: &[FlatC]) -> Result<Vec<Asg>, Uninterpretable> {
     let mut out = Vec::new();
     for a in &asgs {
         let mut done = vec![false; cs.len()];
         extend_one(st, path, a, cs, &mut done, &mut out)?;
+        if out.len() > MAX_ASSIGNMENTS {
+            return Err(Uninterpretable("too-big".into()));
+        }
     }
     out.sort();
     out.dedup();
@@ -714,7 +767,7 @@ fn pass(p: &Program, paths: &[CPath], st: &Structure) -> Result<(Vec<Action>, BT
             }
             match s {
                 CStmt::If(cs, _) => {
-                    asgs = extend(st, path, asgs, cs).map_err(|e| ChaseError::Uninterpretable(e.0))?;
+                    asgs = extend(st, path, asgs, cs).map_err(|e| if e.0 == "too-big" { ChaseError::Diverged } else { ChaseError::Uninterpretable(e.0) })?;
                 }
                 CStmt::Then(c, text) => {
                     let mut next = Vec::new();
@@ -833,7 +886,7 @@ pub fn chase(p: &Program, paths: &[CPath], st: &mut Structure, max_elements: usi
     loop {
         let defs = loop {
             info.passes += 1;
-            if info.passes > 4000 {
+            if info.passes > 400 || st.tables.iter().map(|t| t.len()).sum::<usize>() > 4000 {
                 return Err(ChaseError::Diverged);
             }
             let (actions, defs) = pass(p, paths, st)?;
@@ -857,7 +910,7 @@ pub fn chase(p: &Program, paths: &[CPath], st: &mut Structure, max_elements: usi
             return Ok(info);
         }
         info.def_rounds += 1;
-        if info.def_rounds > max_def_rounds {
+        if info.def_rounds > max_def_rounds || st.total_elements() + defs.len() > max_elements {
             return Err(ChaseError::Diverged);
         }
         for (f, args) in defs {
